@@ -99,10 +99,8 @@ fn rewrite_known(ty: &mut LType) -> bool {
         Union { dense, fields } => {
             for (k, f) in fields.iter_mut().enumerate() {
                 hit |= rewrite_known(&mut f.1.ty);
-                if *dense && f.0 != k as i8 {
-                    f.0 = k as i8;
-                    hit = true;
-                }
+                // (fixed finding union-dense-ids: dense unions keep their generated type ids)
+                let _ = (k, &dense);
                 if f.1.ty.any(&|t| matches!(t, Dict { .. })) {
                     strip_dict(&mut f.1.ty);
                     hit = true;
